@@ -125,7 +125,7 @@ class Check:
         if self.tier == "quick":
             return quick * self.boost
         # VERIF_THOROUGH_SCALE deepens the thorough tier (more histories / configurations, not longer single streams)
-        return thorough * self.boost * max(1, int(os.environ.get("VERIF_THOROUGH_SCALE", "3")))
+        return thorough * self.boost * max(1, int(os.environ.get("VERIF_THOROUGH_SCALE", "6")))
 
     def stat(self, key, n=1):
         self.stats[key] += n
